@@ -288,7 +288,152 @@ def impl_cbin(td, c, data, base_cbin):
     return obs
 
 
+def snapshot(sr, attempt, c, data, cur):
+    """one snapshot of a reader object: [attempt code, warned], live ns, frames of the mapped array,
+    meta fileTimeSecs, rl — and the values clause for the mapped array"""
+    snap = {"attempt": attempt, "cur": cur}
+    try:
+        snap["ns"] = int(sr.ns)
+    except TypeError:
+        snap["ns_exc"] = 3
+    except (ValueError, OverflowError):
+        snap["ns_exc"] = 2
+    fa = sr.meta.get("fileTimeSecs")
+    snap["fts"] = None if fa is None else float(fa)
+    try:
+        snap["rl"] = float(sr.rl)
+    except (TypeError, ValueError, OverflowError):
+        snap["rl"] = None
+    snap["mapped"] = -1
+    bad = []
+    if sr.is_open:
+        try:
+            full = sr[:, :]
+            snap["mapped"] = int(full.shape[0])
+            nc = c["nc"]
+            m = snap["mapped"]
+            if full.shape[1:] != (nc,):
+                bad.append("mapped array has %s channels" % (full.shape[1:],))
+            elif m * nc * 2 > cur:
+                bad.append("reads return data beyond the file")
+            elif m > 0:
+                s2v = np.asarray(sr.sample2volts, dtype=np.float64)
+                want = data.frames(m, nc).astype(np.int64)
+                got = np.rint(full.astype(np.float64) / s2v).astype(np.int64)
+                if not np.array_equal(got, want):
+                    bad.append("values read are not the file's prefix")
+        except Exception as e:
+            bad.append("read raised %s" % type(e).__name__)
+    snap["read_bad"] = bad
+    return snap
+
+
+def impl_seq(td, c, data):
+    """c: reader, iw, nc, fs_text, fts_text|None, size_val, size0, open_flag, ops [[code, arg], ...], as_str.
+    -> list of snapshots (after the constructor and after every operation)"""
+    import spikeglx
+    stem = "c_g0_t0.nidq"
+    fbin = td / (stem + ".bin")
+    for f in td.iterdir():
+        f.unlink()
+    fbin.write_bytes(data.buf[:c["size0"]])
+    (td / (stem + ".meta")).write_text(meta_text("nidq", c["nc"], c["fs_text"], c["fts_text"], c["size_val"]))
+    cls = spikeglx.OnlineReader if c["reader"] == "online" else spikeglx.Reader
+    cur = c["size0"]
+    snaps = []
+
+    def attempt(fn):
+        _CATCH.n = 0
+        try:
+            r = fn()
+        except (ValueError, OverflowError, TypeError, KeyError) as e:
+            return [EXC_CODE[type(e).__name__], 0], r if False else None
+        return [0, 1 if _CATCH.n else 0], r
+
+    arg = str(fbin) if c.get("as_str") else fbin
+    if c["open_flag"]:
+        att, sr = attempt(lambda: cls(arg, ignore_warnings=bool(c["iw"])))
+        if sr is None:
+            raise RuntimeError("constructor with open=True raised (generator should not produce this)")
+    else:
+        sr = cls(arg, open=False, ignore_warnings=bool(c["iw"]))
+        att = [9, 0]
+    try:
+        snaps.append(snapshot(sr, att, c, data, cur))
+        for code, a in c["ops"]:
+            if code == 0:
+                if a >= cur:
+                    with open(fbin, "ab") as fid:
+                        fid.write(data.buf[cur:a])
+                else:
+                    os.truncate(fbin, a)
+                cur = a
+                att = [9, 0]
+            elif code == 1:
+                att, _ = attempt(sr.open)
+            else:
+                was_open = sr.is_open
+                att, _ = attempt(sr.__enter__)
+                if was_open and att[0] == 0:
+                    att = [9, 0] if not att[1] else att
+            snaps.append(snapshot(sr, att, c, data, cur))
+    finally:
+        try:
+            sr.close()
+        except Exception:
+            pass
+    return snaps
+
+
+def enc_snaps(snaps):
+    out = []
+    for s in snaps:
+        out += s["attempt"]
+        out += [s["ns_exc"], 0] if "ns_exc" in s else [0, s["ns"]]
+        out += [s["mapped"]]
+        out += [4, 0, 0, 0] if s["fts"] is None else enc_float(s["fts"])
+        out += [9, 0, 0, 0] if s["rl"] is None else enc_float(s["rl"])
+    return out
+
+
+def oracle_seq(c, snaps):
+    """-> list of (what, tags): the property on every open attempt of the history (and, for the online
+    reader, on sr.ns at every moment)"""
+    bad = []
+    nc = c["nc"]
+    fb = 2 * nc
+    fs = float(c["fs_text"])
+    prev_fts = None if c["fts_text"] is None else float(c["fts_text"])
+    for i, s in enumerate(snaps):
+        cur = s["cur"]
+        want = cur // fb
+        stale = "no"
+        if c["reader"] == "offline" and prev_fts is not None and cur != c["size0"] and \
+                int(round(prev_fts * fs)) * fb == c["size0"]:
+            stale = "claim_equals_cached_size"
+        tags = {"mode": "seq", "reader": c["reader"], "stale": stale, "step": i}
+        where = "step %d (file has %d bytes = %d frames + %d)" % (i, cur, want, cur % fb)
+        if c["reader"] == "online" and s.get("ns") != want:
+            bad.append(("%s: OnlineReader.ns = %s" % (where, s.get("ns", "raises")), tags))
+        if s["attempt"][0] != 9:
+            if s["attempt"][0] != 0:
+                bad.append(("%s: opening raised (code %d)" % (where, s["attempt"][0]), tags))
+            else:
+                if s["mapped"] != want:
+                    bad.append(("%s: the opened array has %d frames" % (where, s["mapped"]), tags))
+                if s.get("ns") != want:
+                    bad.append(("%s: ns = %s after open" % (where, s.get("ns", "raises")), tags))
+                if s["rl"] is None or s.get("ns") is None or s["rl"] != s["ns"] / fs:
+                    bad.append(("%s: duration rl does not match the sample count" % where, tags))
+        for b in s["read_bad"]:
+            bad.append(("%s: %s" % (where, b), tags))
+        prev_fts = s["fts"]
+    return bad
+
+
 def enc_obs(obs):
+    if isinstance(obs, list):
+        return enc_snaps(obs)
     if "exc" in obs:
         return [EXC_CODE[obs["exc"]]]
     fa = obs["fts_after"]
@@ -304,6 +449,9 @@ def enc_inp(c):
     else:
         has = 1
         ftm, fte = f2me(float(c["fts_text"]))
+    if c["mode"] == "seq":
+        return [2, 1 if c["reader"] == "online" else 0, c["iw"], c["nc"], fsm, fse, has, ftm, fte, c["size0"],
+                c["open_flag"]] + [x for o in c["ops"] for x in o]
     if c["mode"] == "flat":
         return [0, 1 if c["reader"] == "online" else 0, c["iw"], 0 if c["size_val"] is None else 1,
                 c["nbytes"], c["nc"], fsm, fse, has, ftm, fte]
@@ -313,6 +461,9 @@ def enc_inp(c):
 def in_domain(c):
     """the property's quantifier: at least one complete frame; the reader that is meant for the
     kind of metadata at hand (a meta without fileTimeSecs = recording in progress = OnlineReader)"""
+    if c["mode"] == "seq":
+        sizes = [c["size0"]] + [a for code, a in c["ops"] if code == 0]
+        return min(sizes) >= 2 * c["nc"] and not (c["reader"] == "offline" and c["fts_text"] is None)
     if c["mode"] == "flat":
         if c["nbytes"] < 2 * c["nc"]:
             return False
@@ -460,7 +611,9 @@ def gen_cbin(ctx):
 
 def describe(c):
     return {k: c.get(k) for k in ("mode", "reader", "iw", "kind", "nc", "nbytes", "fs_text", "claim", "fts_text",
-                                  "size_val", "sparse", "nchunks", "chns", "chnc")}
+                                  "size_val", "sparse", "nchunks", "chns", "chnc", "size0", "open_flag", "ops", "as_str",
+                                  "pattern")
+            if k in c}
 
 
 def tags_of(c, obs):
